@@ -40,7 +40,7 @@ Proof.
   intros HW Hs. apply tstep_cases in Hs as [[_ Hs]|[[_ Hs]|(i & p & _ & Hp & Hs)]].
   - (* loop thread: it is never left parked with a non-empty queue *)
     unfold wake_ok. intros Hq Hl. exfalso. revert Hs Hq Hl. unfold lstep.
-    destruct (loop c) as [|wl| | |x| | | | |];
+    destruct (loop c) as [|wl| | | |x| | | | | | |];
       repeat match goal with
              | |- context [if ?b then _ else _] => destruct b eqn:?
              | |- context [match ?x with _ => _ end] => destruct x eqn:?
@@ -92,7 +92,7 @@ Theorem loop_runs_when_queued m0 l0 pipe0 nmsgs s :
   tstep Loop c <> None.
 Proof.
   intros c Hst Hq Hnp. cbn [tstep]. unfold lstep.
-  destruct (loop c) as [|wl| | |x| | | | |] eqn:El; try discriminate Hst; try discriminate.
+  destruct (loop c) as [|wl| | | |x| | | | | | |] eqn:El; try discriminate Hst; try discriminate.
   - destruct (0 <? pipe c)%nat eqn:Ep; [discriminate|]. destruct wl; [discriminate|].
     exfalso. destruct (wake_run m0 l0 pipe0 nmsgs s Hq El) as [H|(i & p & Hi & Hp)].
     + apply Nat.ltb_ge in Ep. fold c in H. lia.
@@ -137,12 +137,43 @@ Proof.
   - cbn. unfold lstep. rewrite Hl, Hq. eexists; split; [reflexivity|]. cbn. rewrite app_nil_r. repeat split; assumption.
   - replace (2 * length (x :: q) + 1)%nat with (2 + (2 * length q + 1))%nat by (cbn; lia).
     set (c1 := mkConf (last_mid c) (mid_lock c) q (pipe c) (Some k0) (nconn c)
-                      (wire c ++ [(k0, x)]) LPop (pubs c) (timeouts c) (alloc_log c) (marked c)).
+                      (wire c ++ [(k0, x)]) LPop (pubs c) (timeouts c) (alloc_log c) (marked c) (cq c)).
     assert (H2 : loop_n 2 c = Some c1).
     { cbn. unfold lstep at 1. rewrite Hl, Hq. unfold lstep; cbn. rewrite Hk. reflexivity. }
     destruct (IH c1 eq_refl eq_refl eq_refl) as (c' & Hn & E1 & E2 & E3 & E4 & E5 & E6 & E7).
     exists c'. split; [eapply loop_n_app; eassumption|]. cbn in E3, E4, E5, E7.
     repeat split; try assumption. rewrite E3, map_app. cbn. rewrite <- app_assoc. reflexivity.
+Qed.
+
+(* steady runs never touch _connect_queued *)
+Lemma cq_steady m0 l0 pipe0 nmsgs s : steady l0 = true ->
+  cq (sched_run s (init m0 l0 pipe0 nmsgs)) = true.
+Proof.
+  intros Hs.
+  assert (G : steady (loop (sched_run s (init m0 l0 pipe0 nmsgs))) = true /\ cq (sched_run s (init m0 l0 pipe0 nmsgs)) = true).
+  { apply (run_inv (fun c => steady (loop c) = true /\ cq c = true)); [|split; [exact Hs|reflexivity]].
+    intros t c c' [H1 H2] Hst. apply tstep_cases in Hst as [[_ Hst]|[[_ Hst]|(i & p & _ & Hp & Hst)]].
+    - unfold lstep in Hst. destruct (loop c) as [|wl| | | |x| | | | | | |] eqn:El; try discriminate H1;
+        repeat match type of Hst with
+               | context [if ?b then _ else _] => destruct b eqn:?
+               | context [match ?x with _ => _ end] => destruct x eqn:?
+               end; try discriminate; inversion Hst; subst; cbn; split; try reflexivity; assumption.
+    - destruct (timeout_frame c c' Hst) as (_ & _ & _ & _ & _ & _ & _ & _ & _ & _ & El' & _).
+      rewrite El', (timeout_cq c c' Hst). split; [reflexivity|assumption].
+    - destruct (pstep_frame i p c c' Hst) as (_ & _ & El & _). rewrite El, (pstep_cq i p c c' Hst). split; assumption. }
+  exact (proj2 G).
+Qed.
+
+(* from the gate of loop_write(), with CONNECT queued long ago *)
+Lemma drain_from_gate k0 c : loop c = LGate -> cq c = true -> sock c = Some k0 ->
+  exists c', loop_n (1 + (2 * length (out_packet c) + 1)) c = Some c' /\
+    out_packet c' = [] /\ loop c' = LWant /\ map snd (wire c') = map snd (wire c) ++ out_packet c /\
+    timeouts c' = timeouts c /\ pubs c' = pubs c.
+Proof.
+  intros El Hq Hk.
+  assert (H1 : loop_n 1 c = Some (set_loop c LPop)) by (cbn [loop_n]; unfold lstep; rewrite El, Hq; reflexivity).
+  destruct (drain_from_pop k0 (out_packet c) (set_loop c LPop) eq_refl eq_refl Hk) as (c' & Hn & E1 & E2 & E3 & E4 & E5 & _).
+  exists c'. split; [eapply loop_n_app; [exact H1|exact Hn]|]. repeat split; assumption.
 Qed.
 
 (* the loop thread, wherever it is in its iteration, reaches the state "queue empty, nothing in hand" in a
@@ -157,70 +188,65 @@ Proof.
   intros Hm Hs0 Hi0 c Hquiet.
   destruct (HInv_run m0 l0 pipe0 nmsgs s Hm Hs0 Hi0) as (Hst & Hk & _). fold c in Hst, Hk.
   pose proof (wake_run m0 l0 pipe0 nmsgs s) as HW. fold c in HW.
+  pose proof (cq_steady m0 l0 pipe0 nmsgs s Hs0) as Hq. fold c in Hq.
   unfold flight.
-  destruct (loop c) as [|wl| | |x| | | | |] eqn:El; try discriminate Hst; cbn [in_send app].
+  (* from LDrain *)
+  assert (FromDrain : forall d, loop d = LDrain -> cq d = true -> sock d = Some 1 ->
+            exists n d', loop_n n d = Some d' /\ out_packet d' = [] /\ loop d' = LWant /\
+              map snd (wire d') = map snd (wire d) ++ out_packet d /\ timeouts d' = timeouts d /\ pubs d' = pubs d).
+  { intros d El Hqd Hkd.
+    set (d1 := mkConf (last_mid d) (mid_lock d) (out_packet d) (pipe d - Nat.min (pipe d) recv_max)%nat
+                      (sock d) (nconn d) (wire d) LGate (pubs d) (timeouts d) (alloc_log d) (marked d) (cq d)).
+    assert (H1 : loop_n 1 d = Some d1) by (cbn [loop_n]; unfold lstep; rewrite El; reflexivity).
+    destruct (drain_from_gate 1 d1 eq_refl Hqd Hkd) as (d' & Hn & E1 & E2 & E3 & E4 & E5).
+    eexists _, d'. split; [eapply loop_n_app; [exact H1|exact Hn]|]. repeat split; assumption. }
+  (* from LSelect, not parked *)
+  assert (FromSelect : forall d wl, loop d = LSelect wl -> cq d = true -> sock d = Some 1 ->
+            ((0 <? pipe d)%nat = true \/ wl = true) ->
+            exists n d', loop_n n d = Some d' /\ out_packet d' = [] /\ loop d' = LWant /\
+              map snd (wire d') = map snd (wire d) ++ out_packet d /\ timeouts d' = timeouts d /\ pubs d' = pubs d).
+  { intros d wl El Hqd Hkd Hen. destruct (0 <? pipe d)%nat eqn:Ep.
+    - assert (H1 : loop_n 1 d = Some (set_loop d LDrain)) by (cbn [loop_n]; unfold lstep; rewrite El, Ep; reflexivity).
+      destruct (FromDrain (set_loop d LDrain) eq_refl Hqd Hkd) as (n & d' & Hn & E).
+      eexists _, d'. split; [eapply loop_n_app; [exact H1|exact Hn]|]. exact E.
+    - destruct Hen as [Hen|Hen]; [discriminate|]. subst wl.
+      assert (H1 : loop_n 1 d = Some (set_loop d LGate)) by (cbn [loop_n]; unfold lstep; rewrite El, Ep; reflexivity).
+      destruct (drain_from_gate 1 (set_loop d LGate) eq_refl Hqd Hkd) as (d' & Hn & E).
+      eexists _, d'. split; [eapply loop_n_app; [exact H1|exact Hn]|]. exact E. }
+  destruct (loop c) as [|wl| | | |x| | | | | | |] eqn:El; try discriminate Hst; cbn [in_send app].
   - (* LWant *)
     destruct (out_packet c) as [|y q] eqn:Eq.
     + exists O, c. cbn. rewrite El, Eq, app_nil_r. repeat split; reflexivity.
-    + (* LWant -> LSelect true -> (LDrain ->) LPop -> drain *)
-      set (c1 := set_loop c (LSelect true)).
-      assert (H1 : loop_n 1 c = Some c1) by (cbn [loop_n]; unfold lstep; rewrite El, Eq; reflexivity).
-      destruct (0 <? pipe c)%nat eqn:Ep.
-      * set (c2 := set_loop c LDrain).
-        assert (H2 : loop_n 1 c1 = Some c2) by (cbn [loop_n]; unfold lstep, c1, set_loop; cbn [loop pipe]; rewrite Ep; reflexivity).
-        set (c3 := mkConf (last_mid c) (mid_lock c) (out_packet c) (pipe c - Nat.min (pipe c) recv_max)%nat
-                          (sock c) (nconn c) (wire c) LPop (pubs c) (timeouts c) (alloc_log c) (marked c)).
-        assert (H3 : loop_n 1 c2 = Some c3) by reflexivity.
-        destruct (drain_from_pop 1 (y :: q) c3 Eq eq_refl Hk) as (c' & Hn & E1 & E2 & E3 & E4 & E5 & _).
-        exists (1 + (1 + (1 + (2 * length (y :: q) + 1))))%nat, c'.
-        split; [eapply loop_n_app; [exact H1|]; eapply loop_n_app; [exact H2|]; eapply loop_n_app; [exact H3|exact Hn]|].
-        rewrite E2. cbn [in_send]. repeat split; assumption.
-      * set (c2 := set_loop c LPop).
-        assert (H2 : loop_n 1 c1 = Some c2) by (cbn [loop_n]; unfold lstep, c1, set_loop; cbn [loop pipe]; rewrite Ep; reflexivity).
-        destruct (drain_from_pop 1 (y :: q) c2 Eq eq_refl Hk) as (c' & Hn & E1 & E2 & E3 & E4 & E5 & _).
-        exists (1 + (1 + (2 * length (y :: q) + 1)))%nat, c'.
-        split; [eapply loop_n_app; [exact H1|]; eapply loop_n_app; [exact H2|exact Hn]|].
-        rewrite E2. cbn [in_send]. repeat split; assumption.
+    + assert (H1 : loop_n 1 c = Some (set_loop c (LSelect true))) by (cbn [loop_n]; unfold lstep; rewrite El, Eq; reflexivity).
+      destruct (FromSelect (set_loop c (LSelect true)) true eq_refl Hq Hk (or_intror eq_refl)) as (n & c' & Hn & E1 & E2 & E3 & E4 & E5).
+      eexists _, c'. split; [eapply loop_n_app; [exact H1|exact Hn]|].
+      rewrite E2. cbn [in_send]. cbn in E3. rewrite Eq in E3. repeat split; assumption.
   - (* LSelect wl *)
-    destruct (0 <? pipe c)%nat eqn:Ep.
-    + set (c2 := set_loop c LDrain).
-      assert (H2 : loop_n 1 c = Some c2) by (cbn [loop_n]; unfold lstep; rewrite El, Ep; reflexivity).
-      set (c3 := mkConf (last_mid c) (mid_lock c) (out_packet c) (pipe c - Nat.min (pipe c) recv_max)%nat
-                        (sock c) (nconn c) (wire c) LPop (pubs c) (timeouts c) (alloc_log c) (marked c)).
-      assert (H3 : loop_n 1 c2 = Some c3) by reflexivity.
-      destruct (drain_from_pop 1 (out_packet c) c3 eq_refl eq_refl Hk) as (c' & Hn & E1 & E2 & E3 & E4 & E5 & _).
-      exists (1 + (1 + (2 * length (out_packet c) + 1)))%nat, c'.
-      split; [eapply loop_n_app; [exact H2|]; eapply loop_n_app; [exact H3|exact Hn]|].
-      rewrite E2. cbn [in_send]. repeat split; assumption.
-    + destruct wl.
-      * set (c2 := set_loop c LPop).
-        assert (H2 : loop_n 1 c = Some c2) by (cbn [loop_n]; unfold lstep; rewrite El, Ep; reflexivity).
-        destruct (drain_from_pop 1 (out_packet c) c2 eq_refl eq_refl Hk) as (c' & Hn & E1 & E2 & E3 & E4 & E5 & _).
-        exists (1 + (2 * length (out_packet c) + 1))%nat, c'.
-        split; [eapply loop_n_app; [exact H2|exact Hn]|].
-        rewrite E2. cbn [in_send]. repeat split; assumption.
-      * (* parked: by the invariant the queue is empty *)
-        destruct (out_packet c) as [|y q] eqn:Eq.
-        -- exists O, c. cbn. rewrite El, Eq, app_nil_r. repeat split; reflexivity.
-        -- exfalso. assert (Hne : out_packet c <> []) by (rewrite Eq; discriminate).
-           destruct (HW Hne El) as [H|(i & p & Hi & Hp)].
-           ++ apply Nat.ltb_ge in Ep. lia.
-           ++ exact (Hquiet i p Hi Hp).
+    destruct (0 <? pipe c)%nat eqn:Ep; [|destruct wl].
+    + destruct (FromSelect c wl El Hq Hk (or_introl Ep)) as (n & c' & Hn & E1 & E2 & E3 & E4 & E5).
+      exists n, c'. split; [exact Hn|]. rewrite E2. cbn [in_send]. repeat split; assumption.
+    + destruct (FromSelect c true El Hq Hk (or_intror eq_refl)) as (n & c' & Hn & E1 & E2 & E3 & E4 & E5).
+      exists n, c'. split; [exact Hn|]. rewrite E2. cbn [in_send]. repeat split; assumption.
+    + (* parked: by the invariant the queue is empty *)
+      destruct (out_packet c) as [|y q] eqn:Eq.
+      * exists O, c. cbn. rewrite El, Eq, app_nil_r. repeat split; reflexivity.
+      * exfalso. assert (Hne : out_packet c <> []) by (rewrite Eq; discriminate).
+        destruct (HW Hne El) as [H|(i & p & Hi & Hp)].
+        -- apply Nat.ltb_ge in Ep. lia.
+        -- exact (Hquiet i p Hi Hp).
   - (* LDrain *)
-    set (c3 := mkConf (last_mid c) (mid_lock c) (out_packet c) (pipe c - Nat.min (pipe c) recv_max)%nat
-                      (sock c) (nconn c) (wire c) LPop (pubs c) (timeouts c) (alloc_log c) (marked c)).
-    assert (H3 : loop_n 1 c = Some c3) by (cbn [loop_n]; unfold lstep; rewrite El; reflexivity).
-    destruct (drain_from_pop 1 (out_packet c) c3 eq_refl eq_refl Hk) as (c' & Hn & E1 & E2 & E3 & E4 & E5 & _).
-    exists (1 + (2 * length (out_packet c) + 1))%nat, c'.
-    split; [eapply loop_n_app; [exact H3|exact Hn]|].
-    rewrite E2. cbn [in_send]. repeat split; assumption.
+    destruct (FromDrain c El Hq Hk) as (n & c' & Hn & E1 & E2 & E3 & E4 & E5).
+    exists n, c'. split; [exact Hn|]. rewrite E2. cbn [in_send]. repeat split; assumption.
+  - (* LGate *)
+    destruct (drain_from_gate 1 c El Hq Hk) as (c' & Hn & E1 & E2 & E3 & E4 & E5).
+    eexists _, c'. split; [exact Hn|]. rewrite E2. cbn [in_send]. repeat split; assumption.
   - (* LPop *)
     destruct (drain_from_pop 1 (out_packet c) c eq_refl El Hk) as (c' & Hn & E1 & E2 & E3 & E4 & E5 & _).
     exists (2 * length (out_packet c) + 1)%nat, c'. split; [exact Hn|].
     rewrite E2. cbn [in_send]. repeat split; assumption.
   - (* LSend x *)
     set (c1 := mkConf (last_mid c) (mid_lock c) (out_packet c) (pipe c) (Some 1) (nconn c)
-                      (wire c ++ [(1, x)]) LPop (pubs c) (timeouts c) (alloc_log c) (marked c)).
+                      (wire c ++ [(1, x)]) LPop (pubs c) (timeouts c) (alloc_log c) (marked c) (cq c)).
     assert (H1 : loop_n 1 c = Some c1) by (cbn [loop_n]; unfold lstep; rewrite El, Hk; reflexivity).
     destruct (drain_from_pop 1 (out_packet c) c1 eq_refl eq_refl eq_refl) as (c' & Hn & E1 & E2 & E3 & E4 & E5 & _).
     exists (1 + (2 * length (out_packet c) + 1))%nat, c'.
